@@ -172,7 +172,8 @@ class Ownership:
         for q, sm in self.sums.items():
             if sm.ret_fresh is not None or sm.ret_alias_self:
                 cfg.return_origin[q] = {"fresh": bool(sm.ret_fresh), "fields_fresh": bool(sm.ret_fields_fresh),
-                                        "elems_fresh": bool(sm.ret_elems_fresh), "alias_self": sm.ret_alias_self}
+                                        "elems_fresh": bool(sm.ret_elems_fresh), "alias_self": sm.ret_alias_self,
+                                        "elems_from_inputs": bool(sm.__dict__.get("ret_elems_from_inputs"))}
         for q, ov in self.override_returns.items():
             cfg.return_origin[q] = dict(cfg.return_origin.get(q, {}), **ov)
         a = fn.args
@@ -229,6 +230,7 @@ class Ownership:
         fresh_all: List[bool] = []
         fields_all: List[bool] = []
         elems_all: List[bool] = []
+        elems_src: List[bool] = []
         alias_self_all: List[bool] = []
         for l in leaves:
             params = l.run.__dict__["params"]
@@ -245,17 +247,22 @@ class Ownership:
                 ff, ef = self._fields_fresh(v)
                 fields_all.append(ff)
                 elems_all.append(ef)
+                if not ef:
+                    elems_src.append(_meta(v).get("elem_origin") == "input" and isinstance(v, SNew))
         if fresh_all:
             s.ret_fresh = all(fresh_all)
             s.ret_fields_fresh = all(fields_all)
             s.ret_elems_fresh = all(elems_all)
+            # every element that is not new is one the caller handed in (the receiver's or an argument's)
+            s.__dict__["ret_elems_from_inputs"] = bool(elems_src) and all(elems_src)
             s.ret_alias_self = all(alias_self_all)
         return s
 
     def _fields_fresh(self, v: Any) -> Tuple[bool, bool]:
         m = _meta(v)
         if isinstance(v, SNew) and "copy_of" not in m:
-            return True, True
+            # a newly built container still holds whatever was handed to its constructor
+            return True, m.get("elem_origin", "new") == "new"
         if (isinstance(v, SObj) and v.origin == "new") or isinstance(v, SNew):
             mode = m.get("copy_mode")
             if mode in ("fieldwise", "deep", "userlist", "dict", "list"):
